@@ -80,6 +80,8 @@ pub struct Pipe {
     pub reset_calls: Vec<u64>,
     /// the stream has been announced to the accepting side
     pub announced: bool,
+    /// bytes handed to `send_data` that the transport has not taken yet (a write is in flight)
+    pub pending_write: usize,
 }
 
 impl Pipe {
@@ -361,6 +363,16 @@ impl Net {
             Some(p) => p.written.clone(),
             None => Vec::new(),
         }
+    }
+
+    /// bytes of a write in flight on the pipe `side` writes on
+    pub fn pending_write(&self, side: usize, id: u64) -> usize {
+        let mut g = self.lock();
+        g.streams.get_mut(&id).and_then(|s| s.pipe_w(side)).map(|p| p.pending_write).unwrap_or(0)
+    }
+
+    pub fn conn_dead(&self, side: usize) -> bool {
+        self.lock().sides[side].conn_err.is_some()
     }
 
     /// (fin, reset code, stop code) of the pipe `side` writes on.
